@@ -143,10 +143,19 @@ theorem count_without_empty_counterexample :
   revert this
   decide +kernel
 
-/-- … and so is `count(m)` over two series under the SAME id (two TSIDs with one label set): counted once. -/
-theorem count_duplicate_ids_counterexample :
+/-- WITH patch c09-26 `count(m)` counts every series, also series that share one id (the ids carry only the labels of
+the query's filters, and "*" for a regex on the metric name): two series with one label set are counted twice, as the
+statement demands (`agg_correct` no longer asks for pairwise different label sets). -/
+example :
+    aggAt { fn := .count, without := false, fields := [], step := 10, name := [109] }
+      [⟨[([97], [49])], [(5, 1)]⟩, ⟨[([97], [49])], [(6, 1)]⟩] [109, 123] 0 = some 2 := by
+  decide +kernel
+
+/-- OLD behaviour (before patch c09-26) REFUTED: `count(m)` over two series under the SAME id (two TSIDs whose ids
+show one label set) counted them once. -/
+theorem count_duplicate_ids_old_counterexample :
     ¬ (∀ (q : Query) (ss : List Series), AllSafe q ss → ∀ s0 ∈ ss, ∀ t,
-        aggAt q ss (render q.without q.name (specGroupKey q.fields q.without s0.labels)) t
+        aggAtOld q ss (render q.without q.name (specGroupKey q.fields q.without s0.labels)) t
           = specAt q ss (specGroupKey q.fields q.without s0.labels) t) := by
   intro h
   have := h { fn := .count, without := false, fields := [], step := 10, name := [109] }
@@ -156,8 +165,8 @@ theorem count_duplicate_ids_counterexample :
   decide +kernel
 
 example : CountOK { fn := .count, without := false, fields := [], step := 10, name := [109] }
-    [⟨[([97], [49])], [(5, 1)]⟩, ⟨[([97], [50])], [(6, 1)]⟩] := by
-  intro _ _; exact ⟨rfl, by decide⟩
+    [⟨[([97], [49])], [(5, 1)]⟩, ⟨[([97], [49])], [(6, 1)]⟩] := by
+  intro _ _; rfl
 
 /-! ## 3. relations between the aggregation functions (any strings, no label guard) -/
 
@@ -196,8 +205,7 @@ theorem avg_eq_sum_div_count (q : Query) (ss : List Series) (hf : q.fields ≠ [
     · intro s m
       exact h1 s (List.mem_filter.1 m).1
 
-/-- … and for an empty field list (`avg(m)`, `sum(m)`, `count(m)`) on `LabelSafe`, pairwise different
-label sets. -/
+/-- … and for an empty field list (`avg(m)`, `sum(m)`, `count(m)`) on `LabelSafe` label sets. -/
 theorem avg_eq_sum_div_count_nofields (q : Query) (ss : List Series) (hs : AllSafe q ss)
     (hc : CountOK (withFn q .count) ss) (h1 : SingleSample q ss) (s0 : Series) (h0 : s0 ∈ ss) (t : Nat) (a s c : Rat)
     (havg : aggAt (withFn q .avg) ss (render q.without q.name (specGroupKey q.fields q.without s0.labels)) t = some a)
